@@ -118,7 +118,7 @@ spec fn line_pre<'a>(f: &'a Field, ctx: ImplContext<'a>, hint: TypeHint, idx: in
 }
 
 //@fn expand.rs render_struct_line
-//@props C01,C03,C07,C10,C16,C17
+//@props C01,C02,C03,C07,C10,C16,C17
 //@attr #[verifier::spinoff_prover]
 //@attr #[verifier::rlimit(3000)]
 //@shard 8
